@@ -546,3 +546,70 @@ func TestC10_BurnerProbe(t *testing.T) {
 		t.Log(err)
 	}
 }
+
+// c10FixedBurns: for every shape one burner whose work is so large that
+// eps*work exceeds its GasWanted several times - it can only be reported
+// successful if (part of) its work is not metered - and one moderate burner
+// that completes with ample gas (validating the lower bound on real runs).
+func c10FixedBurns() (huge, moderate c10BurnCase) {
+	const W = 20_000_000 // units of work of the huge variant (iterations; x64 for byte shapes)
+	for _, sh := range c10Shapes {
+		h := c10Burn{Shape: sh.name, Gas: 4_000_000}
+		m := c10Burn{Shape: sh.name, Gas: 150_000_000}
+		switch sh.name {
+		case "Fib":
+			h.N, m.N = 35, 15
+		case "Double":
+			h.N, h.Gas, m.N = 27, 2_000_000, 16
+		case "Rec":
+			h.N, h.M, m.N, m.M = 200, W/200, 100, 10
+		case "Sort":
+			h.N, h.M, m.N, m.M = 65536, W/65536+1, 64, 4
+		case "Sha":
+			h.N, h.M, m.N, m.M = 1<<20, W>>20+1, 65536, 8
+		case "Nest":
+			h.N, h.M, m.N, m.M = 4096, W/4096+1, 64, 16
+		default:
+			if sh.two { // byte shapes: 2000 blocks of 1 MiB at 40M gas (eps*work = 32.8M
+				// is out of reach once setup and loop overhead are paid, unless
+				// the per-byte work itself is free)
+				h.N, h.M, h.Gas, m.N, m.M = 1<<20, 2000, 40_000_000, 65536, 16
+				if h.N > sh.maxN {
+					h.N = sh.maxN
+				}
+			} else {
+				h.N, m.N = W, 1000
+			}
+		}
+		huge.Burns = append(huge.Burns, h)
+		moderate.Burns = append(moderate.Burns, m)
+	}
+	huge.Burns = append(huge.Burns, c10Burn{Shape: "Forever", Gas: 3_000_000})
+	moderate.Burns = append(moderate.Burns, c10Burn{Shape: "ModExp", N: 32, M: 32 | 2<<12, Gas: 150_000_000})
+	return
+}
+
+// TestC10_BurnerShapes runs the fixed huge and moderate burners of every shape.
+func TestC10_BurnerShapes(t *testing.T) {
+	r := vk.Open(t, "C10", "TestC10_BurnerShapes", "enumeration: every burner shape once with huge work (2*10^7 iterations at GasWanted 4M; 2000 blocks of 1 MiB at 40M for byte-oriented shapes; eps*work is out of reach, so it must be stopped) and once with moderate work and ample gas (must complete and satisfy GasUsed >= eps*work); same oracle as TestC10_Burner")
+	defer r.Close()
+	if vk.Replaying() {
+		t.Skip()
+	}
+	r.ReplayAs = "TestC10_Burner"
+	r.Extra("exhaustive", false)
+	huge, moderate := c10FixedBurns()
+	for i, c := range []c10BurnCase{huge, moderate} {
+		c := c
+		err := r.Do(c, func(ctx *vk.Ctx) error {
+			if err := c10BurnExec(ctx, c); err != nil {
+				return err
+			}
+			return nil
+		})
+		if err != nil {
+			return
+		}
+		_ = i
+	}
+}
